@@ -25,6 +25,30 @@ def key(k):
     return (f"s{k}", k)
 
 
+class _Odd:
+    """a value that is falsy and compares unequal to everything"""
+    def __bool__(self):
+        return False
+
+
+# what is stored under value id v: every third value is FALSY (empty set / falsy object / empty list, dict, bytearray): a legal
+# MatchSet can be empty, and a lookup must return whatever was stored
+VALUES = {}
+
+
+def val(v):
+    if v not in VALUES:
+        VALUES[v] = [set, _Odd, list, dict, bytearray][(v // 3) % 5]() if v % 3 == 0 else ["v", v]
+    return VALUES[v]
+
+
+def unval(x):
+    for k, y in VALUES.items():      # identity: every stored value is a distinct object
+        if y is x:
+            return k
+    return -999
+
+
 def observe(c):
     return f"{len(c)}|{','.join(str(k[1]) for k in c)}|{c.hits}|{c.misses}"
 
@@ -42,9 +66,9 @@ def run_impl(dflt, args, ops):
         ret = ["-"] * len(caches)
         try:
             if op[0] == "g":
-                ret[tgt] = "v" + str(caches[tgt][key(op[1])])
+                ret[tgt] = "v" + str(unval(caches[tgt][key(op[1])]))
             elif op[0] == "s":
-                caches[tgt][key(op[1])] = op[2]
+                caches[tgt][key(op[1])] = val(op[2])
             elif op[0] == "d":
                 del caches[tgt][key(op[1])]
             elif op[0] == "c":
